@@ -11,7 +11,8 @@ from .. import fam_pipeline as fp
 from .. import gen_models as gm
 from .. import pipeline as pl
 
-THEOREMS = ["C16.layout", "C16.fields_point_to_data"]
+THEOREMS = ["C16.layout", "C16.fields_point_to_data",
+            "C16b.pairwise_disjoint", "C16b.flatbuffer_prefix", "C16b.no_external", "C16b.toyFb_lenInvariant"]
 ENVVAR = "AI_EDGE_QUANTIZER_VERIF_LARGE_MODEL_THRESHOLD"
 
 
@@ -113,7 +114,7 @@ def run(ctx):
     ctx.explanation = ("layout theorem: for ANY flatbuffer writer whose output length does not depend on the values of the offset/size fields, "
                        "every external constant is 16-aligned, in bounds, non-overlapping and exactly at its recorded offset. The writer and "
                        "the interpreter are external: field equality and identical outputs are executed, not proved.")
-    common.proof_side(ctx, THEOREMS)
+    common.proof_side(ctx, THEOREMS, modules=["QProps.C16", "QProps.C16b"])
     drv = common.Driver()
     interp = pl.Interp()
     try:
